@@ -71,6 +71,18 @@ Oracles
        number of dimensions (`autodim:*`, C12); a DIM or a reference with another number of subscripts
        follows. Out-of-range target subscripts and arrays first mentioned inside a failing expression stay
        with the engine's choice.
+  Program changes (ops 'pline', 'pdelete', 'prenum', 'pmerge', 'prun'; about 30 % of the C10/C11 histories):
+       the prelude program then assigns string literals (variables pointing into program text), numeric scalars
+       and array elements; after RUN the history has typed program lines (new ones before/between/behind the
+       stored lines, or replacing an assignment line), DELETE n, RENUM n,,i, MERGE of a small ASCII file
+       written to the scratch disk (lines before, between and behind the stored ones), and RUN again (the
+       model runs the assignment lines that are still there). unspecified: whether such a statement clears
+       the variables. Afterwards EITHER every variable is gone (no VARPTR, reads empty/0, arrays not
+       dimensioned; the model is cleared as for CLEAR) OR every variable exists with its model value and
+       passes the complete VARPTR/PEEK/disjointness audit; `program-change:<op>:variables-neither-cleared-nor-
+       intact` otherwise. The empty-state free space is calibrated again (the program has another size).
+       Out of memory while the program is being changed ends the run (partly changed program: not modelled);
+       the ops are not run with a FIELD file open.
 A violation that leaves the reference model uncertain ends the run.
 """
 
@@ -86,7 +98,8 @@ PROPS = ('C10', 'C11', 'C12')
 RULE = ('one evaluation = one simulated direct-mode history (12-55 ops quick, 40-400 thorough) of '
         'assignments, string functions, MID$/LSET/RSET, SWAP, DIM/ERASE/OPTION BASE, FIELD, DEF FN calls, '
         'ERASE/DIM lists and multi-statement lines that fail after part of their work, console INPUT/LINE INPUT '
-        'typed through the simulated input queue at squeezed free memory, suspend/resume restarts, '
+        'typed through the simulated input queue at squeezed free memory, suspend/resume restarts, typed program '
+        'lines / DELETE / RENUM / MERGE of a scratch-disk file / RUN with variables pointing into program text, '
         'CLEAR ,n,m and FRE under a per-run memory limit and a per-run forced-collection plan, with read-back '
         'of every variable after every op and VARPTR/PEEK sweeps; distinct = distinct (op kind, outcome, '
         'live-string bucket, model-free bucket, collections bucket, arrays bucket) tuples; non-trivial = at '
@@ -94,7 +107,7 @@ RULE = ('one evaluation = one simulated direct-mode history (12-55 ops quick, 40
 REAL = ['pcbasic.basic (whole package)', 'pcbasic.basic.memory.{memory,scalars,arrays}',
         'pcbasic.basic.values.strings (string space, collector)', 'pcbasic.basic.machine (PEEK)',
         'pcbasic.basic.implementation (console INPUT / LINE INPUT)', 'Session.suspend/resume (pickled state file)',
-        'host tmpfs for the FIELD file and the state file']
+        'host tmpfs for the FIELD file, the MERGE file and the state file']
 STUB = ['wall clock (simulated)', 'interface queues (simulated, recording; typed input arrives as stream signals)',
         'collector trigger: DataSegment.check_free wrapped to force collections at a case-recorded subset of calls']
 ASSUMPTIONS = [
@@ -235,6 +248,7 @@ class Model(object):
         self.f0 = None              # FRE("") of the empty state
         self.fns_ok = False
         self.field_ok = False
+        self.prog = {}              # stored program: line number -> {'k': 'base'|'def'|'let'|'rem'|'stop', ...}
 
     def reset(self, first=False):
         self.sc = {}
@@ -862,6 +876,11 @@ class Planner(object):
     def p_restart(self, op, p):
         p.stmt = ''
 
+    def p_pline(self, op, p):
+        p.stmt = ''
+
+    p_pdelete = p_prenum = p_pmerge = p_prun = p_pline
+
     def p_fill(self, op, p):
         if op['n'] not in self.m.ar:
             p.skip = 'no-array'
@@ -1002,6 +1021,109 @@ def plan_compound(m, op):
     if texts:
         comp.text = ':'.join(texts)
     return comp
+
+
+###############################################################################
+# the stored program and the statements that change it
+
+PROGOPS = ('pline', 'pdelete', 'prenum', 'pmerge', 'prun')
+PROTECTED = ('base', 'def', 'stop')
+
+
+def build_prelude(m, cfg):
+    """
+    Program lines of the prelude (OPTION BASE, DEF FNs, the assignments cfg['plets'], STOP); commits the
+    assignments to the model (the state after RUN) and fills m.prog. -> (lines, number of the STOP line)
+    """
+    lines = []
+    m.prog = {}
+    n = 10
+    for f in cfg.get('fns', []):
+        lines.append('%d DEF %s(%s)=%s' % (n, f['f'], ','.join(f['p']), expr_txt(f['body'], f)))
+        m.prog[n] = {'k': 'def', 'f': f}
+        n += 10
+    pl = Planner(m, in_program=True)
+    for op in cfg.get('plets', []):
+        p = pl.plan(op)
+        if p.skip or p.ctx.errs or p.ctx.opt:
+            continue
+        lines.append('%d %s' % (n, p.stmt))
+        m.prog[n] = {'k': 'let', 'op': op}
+        # the model holds the state after RUN (nothing reads it before)
+        p.commit()
+        n += 10
+    if lines and cfg.get('base') is not None:
+        # RUN resets variables; whether it resets OPTION BASE is not our business: say it in the program
+        lines.insert(0, '5 OPTION BASE %d' % cfg['base'])
+        m.prog[5] = {'k': 'base', 'b': cfg['base']}
+    if lines:
+        lines.append('%d STOP' % n)
+        m.prog[n] = {'k': 'stop'}
+    else:
+        m.prog = {}
+    return lines, n
+
+
+def model_run(m):
+    """RUN of the stored program in the model. -> (ok?, number of the STOP line or None)"""
+    snap = (m.snapshot(), m.fns_ok)
+    m.reset()
+    m.fns_ok = False
+    stop = None
+    for n in sorted(m.prog):
+        e = m.prog[n]
+        if e['k'] == 'let':
+            p = Planner(m, in_program=True).plan(e['op'])
+            if p.skip or p.ctx.errs or p.ctx.opt or p.commit is None:
+                m.restore(snap[0])
+                m.fns_ok = snap[1]
+                return False, None
+            p.commit()
+        elif e['k'] == 'stop':
+            stop = n
+            break
+    return True, stop
+
+
+def plan_prog(m, op, cfg):
+    """-> (skip reason or None, statement text, errors the statement must fail with, program afterwards, file text)"""
+    k = op['op']
+    prog = m.prog
+    if k == 'pline':
+        n, text = int(op['n']), 'REM ' + op.get('text', '')
+        if not 0 <= n <= 65000 or prog.get(n, {}).get('k') in PROTECTED:
+            return 'protected-line', None, None, None, None
+        new = dict(prog)
+        new[n] = {'k': 'rem'}
+        return None, '%d %s' % (n, text), set(), new, None
+    if k == 'pdelete':
+        n = int(op['n'])
+        if n not in prog:
+            return None, 'DELETE %d' % n, {5}, prog, None
+        if prog[n]['k'] in PROTECTED:
+            return 'protected-line', None, None, None, None
+        new = dict(prog)
+        del new[n]
+        return None, 'DELETE %d' % n, set(), new, None
+    if k == 'prenum':
+        a, inc = int(op.get('new', 10)), int(op.get('inc', 10))
+        if not prog or a < 0 or inc < 1 or a + inc * len(prog) > 65000:
+            return 'no-program', None, None, None, None
+        new = {a + i * inc: prog[n] for i, n in enumerate(sorted(prog))}
+        return None, 'RENUM %d,,%d' % (a, inc), set(), new, None
+    if k == 'pmerge':
+        if not cfg.get('disk') or not op.get('lines'):
+            return 'no-disk', None, None, None, None
+        new = dict(prog)
+        out = []
+        for n, text in op['lines']:
+            n = int(n)
+            if not 0 <= n <= 65000 or prog.get(n, {}).get('k') in PROTECTED:
+                return 'protected-line', None, None, None, None
+            new[n] = {'k': 'rem'}
+            out.append('%d REM %s\r\n' % (n, text))
+        return None, 'MERGE "C:M.BAS"', set(), new, ''.join(out) + '\x1a'
+    raise K.HarnessError('unknown program op %r' % (op,))
 
 
 ###############################################################################
@@ -1194,31 +1316,14 @@ class Exec(object):
 
     def setup(self):
         d, m, cfg, run = self.d, self.m, self.cfg, self.run
-        lines = []
-        n = 10
         if cfg.get('base') is not None:
             m.base = cfg['base']
-        for f in cfg.get('fns', []):
-            lines.append('%d DEF %s(%s)=%s' % (n, f['f'], ','.join(f['p']), expr_txt(f['body'], f)))
-            n += 10
-        pl = Planner(m, in_program=True)
-        for op in cfg.get('plets', []):
-            p = pl.plan(op)
-            if p.skip or p.ctx.errs or p.ctx.opt:
-                continue
-            lines.append('%d %s' % (n, p.stmt))
-            # the model holds the state after RUN (nothing reads it before)
-            p.commit()
-            n += 10
-        if lines and cfg.get('base') is not None:
-            # RUN resets variables; whether it resets OPTION BASE is not our business: say it in the program
-            lines.insert(0, '5 OPTION BASE %d' % cfg['base'])
-        elif cfg.get('base') is not None:
+        lines, n = build_prelude(m, cfg)
+        if not lines and cfg.get('base') is not None:
             r = d.exec(b'OPTION BASE %d' % cfg['base'])
             if r.err is not None:
                 self.violate('C12', 'setup:option-base-error', 'OPTION BASE %d in a fresh session -> %r' % (cfg['base'], r))
         if lines:
-            lines.append('%d STOP' % n)
             for ln in lines:
                 r = d.exec(b(ln))
                 if r.err is not None:
@@ -1238,12 +1343,7 @@ class Exec(object):
                 self.violate(self.prop, 'setup:prelude-run', 'prelude %r -> %r' % (lines, r))
                 self.stop = True
                 return
-            m.fns_ok = bool(cfg.get('fns'))
-            # unspecified: DEF FN may allocate its parameters (and an entry for itself, which stays inside F0)
-            for f in cfg.get('fns', []):
-                for pn in f['p']:
-                    if pn not in m.sc and self.ev('VARPTR(%s)' % pn) is not None:
-                        m.sc[pn] = m.default(pn)
+            self.after_run()
         if cfg.get('field'):
             r = d.exec(b'OPEN "R",#1,"C:F.DAT",%d' % cfg['field'])
             if r.err is not None:
@@ -1279,6 +1379,9 @@ class Exec(object):
             return
         if kind == 'restart':
             self.do_restart(op)
+            return
+        if kind in PROGOPS:
+            self.do_prog(op)
             return
         plan = Planner(m).plan(op)
         if plan.skip:
@@ -1362,6 +1465,155 @@ class Exec(object):
         if self.stop:
             return
         self.peeks(plan, full=bool(op.get('audit')))
+
+    # -- statements that change the stored program ----------------------------------
+
+    def do_prog(self, op):
+        """
+        A typed program line (new or replacing one), DELETE, RENUM, MERGE of an ASCII file, RUN.
+        unspecified: whether a statement that changes the program clears the variables (a typed line,
+        DELETE and MERGE do in GW-BASIC and PC-BASIC, RENUM does not). Afterwards EITHER every variable is
+        gone (scalars have no address and read empty/0, arrays are not dimensioned) OR every variable is
+        there with its value and passes the complete audit.
+        """
+        m, run, cfg = self.m, self.run, self.cfg
+        kind = op['op']
+        if cfg.get('field'):
+            # unspecified here: open files and FIELD variables across program changes
+            run.probe('skipped:%s:file-open' % kind)
+            return
+        if kind == 'prun':
+            self.do_prun(op)
+            return
+        skip, stmt, errs, newprog, ftext = plan_prog(m, op, cfg)
+        if skip:
+            run.probe('skipped:%s:%s' % (kind, skip))
+            return
+        if len(stmt) > MAXLINE:
+            run.probe('skipped:%s:line-too-long' % kind)
+            return
+        plan = Plan(kind)
+        plan.stmt = stmt
+        if ftext is not None:
+            root = os.path.join(run.make_scratch(), 'c')
+            os.makedirs(root, exist_ok=True)
+            with open(os.path.join(root, 'M.BAS'), 'wb') as f:
+                f.write(b(ftext))
+        r = self.d.exec(b(stmt))
+        err = r.err
+        run.state(*(self._state + ('ok' if err is None else 'err', bucket(len(m.prog)))))
+        if err is None and errs:
+            self.violate(self.prop, 'missing-error:%s:expected-%s' % (kind, '/'.join(str(x) for x in sorted(errs))),
+                         '%r succeeded, model expects error %s; %s' % (stmt, sorted(errs), self.history()))
+            self.stop = True
+            return
+        if err is not None:
+            self.had_error = True
+            if err in errs:
+                run.probe('stmt-error-as-modelled')
+                self.readback(plan, full=True)
+                return
+            if err in (7, 14):
+                # the program may have been changed in part: not modelled
+                run.probe('abandon:program-change-out-of-memory')
+            else:
+                self.violate(self.prop, 'unexpected-error:%s:err%d' % (kind, err),
+                             '%r -> %r, model expects success; %s' % (stmt, r, self.history()))
+            self.stop = True
+            return
+        run.probe('stmt-ok')
+        m.prog = newprog
+        self.after_program_change(plan)
+
+    def after_program_change(self, plan):
+        m, run, d = self.m, self.run, self.d
+        scalars, arrays = list(m.sc), list(m.ar)
+        gone = 0
+        for n in scalars:
+            if self.ev('VARPTR(%s)' % n) is None and d.get(b(n)) == (b'' if is_str(n) else 0):
+                gone += 1
+        for n in arrays:
+            if not d.get(b(n + '(')):
+                gone += 1
+        total = len(scalars) + len(arrays)
+        # the program has another size now: the empty-state free space is calibrated again
+        m.f0 = None
+        if gone == total:
+            run.probe('program-change:variables-cleared')
+            m.reset()
+            m.fns_ok = False
+            m.field_ok = False
+            self.had_error = False
+            if m.base:
+                # unspecified: whether OPTION BASE is kept - say it again, either answer is fine
+                r2 = d.exec(b'OPTION BASE %d' % m.base)
+                if r2.err not in (None, 10):
+                    self.violate('C12', 'option-base-after-clear:err%d' % r2.err, 'OPTION BASE %d after %r -> %r' % (m.base, plan.stmt, r2))
+            self.after_clear(plan)
+            return
+        comp = Comp()
+        comp.states = [m.snapshot()]
+        comp.names = arrays
+        intact = gone == 0 and self.matches(comp, 0) and all(self.ev('VARPTR(%s)' % n) is not None for n in scalars)
+        if not intact:
+            self.violate(('C10', 'C11'), 'program-change:%s:variables-neither-cleared-nor-intact' % plan.kind,
+                         'after %r %d of the %d variables are gone (no address, empty/0, not dimensioned) and the other '
+                         '%d do not all exist with their values; %s' % (plan.stmt, gone, total, total - gone, self.history()))
+            self.stop = True
+            return
+        run.probe('program-change:variables-intact')
+        v = self.ev('FRE("")')
+        sure, _, exact = m.live()
+        if v is not None and exact:
+            m.f0 = int(v) + m.records() + sure
+        self.readback(plan, full=True)
+        if self.stop:
+            return
+        self.peeks(plan, full=True, deep='force')
+
+    def do_prun(self, op):
+        """RUN of the stored program up to its STOP: the variables are what the program's lines assign."""
+        m, run = self.m, self.run
+        if not m.prog:
+            run.probe('skipped:prun:no-program')
+            return
+        ok, stop = model_run(m)
+        if not ok:
+            run.probe('skipped:prun:a-line-would-fail')
+            return
+        plan = Plan('prun')
+        plan.stmt = 'RUN'
+        r = self.d.exec(b'RUN')
+        run.state(*(self._state + ('ok' if r.err is None else 'err', bucket(len(m.prog)))))
+        if r.errs or (stop is not None and b'Break in %d' % stop not in r.out):
+            if r.err in (7, 14):
+                run.probe('abandon:program-run-out-of-memory')
+            else:
+                self.violate(self.prop, 'program-run', 'RUN (STOP in line %r) -> %r; %s' % (stop, r, self.history()))
+            self.stop = True
+            return
+        self.had_error = False
+        self.after_run()
+        f0 = self.ev('FRE("")')
+        if f0 is None:
+            run.probe('abandon:program-run-out-of-memory')
+            self.stop = True
+            return
+        m.f0 = int(f0) + m.records() + m.live()[0]
+        self.readback(plan, full=True)
+        if self.stop:
+            return
+        self.peeks(plan, full=True)
+
+    def after_run(self):
+        m = self.m
+        fns = [e['f'] for _, e in sorted(m.prog.items()) if e['k'] == 'def']
+        m.fns_ok = bool(fns)
+        # unspecified: DEF FN may allocate its parameters (and an entry for itself, which stays inside F0)
+        for f in fns:
+            for pn in f['p']:
+                if pn not in m.sc and self.ev('VARPTR(%s)' % pn) is not None:
+                    m.sc[pn] = m.default(pn)
 
     # -- statements that may fail after part of their work ----------------------
 
@@ -1993,7 +2245,7 @@ class Exec(object):
     def peeks(self, plan, full=False, deep=False):
         m = self.m
         # the element-by-element audit is C11's business; the other properties keep the ordinary sweep
-        deep = deep and self.prop == 'C11'
+        deep = deep == 'force' or (deep and self.prop == 'C11')
         refs = []
         if plan is not None:
             for r in plan.touched:
@@ -2237,7 +2489,7 @@ def run(case):
     def body(run):
         w = run.w
         kw = {'max_memory': int(cfg['max_memory'])}
-        if cfg.get('field'):
+        if cfg.get('field') or cfg.get('disk'):
             root = os.path.join(run.make_scratch(), 'c')
             os.makedirs(root)
             kw['devices'] = {'C:': root}
@@ -2519,12 +2771,34 @@ class Gen(object):
                 if not p.skip and not p.ctx.errs:
                     p.commit()
                     cfg['plets'].append(op)
-        if rng.random() < 0.25:
+        # histories with statements that change the stored program: the program assigns string literals
+        # (variables that point into program text), numeric scalars and array elements
+        progrun = rng.random() < {'C10': 0.3, 'C11': 0.3, 'C12': 0.06}[prop]
+        if progrun:
+            cfg['disk'] = True
+            for _ in range(rng.randint(2, 4)):
+                op = {'op': 'let', 't': self.sref(m, elem_p=0.35), 'e': {'k': 'lit', 'v': gen_lit(rng)[:30] or 'lit'}}
+                p = pl.plan(op)
+                if not p.skip and not p.ctx.errs:
+                    p.commit()
+                    cfg['plets'].append(op)
+            for _ in range(rng.randint(1, 3)):
+                op = {'op': 'let', 't': self.nref(m, elem_p=0.4), 'e': {'k': 'int', 'v': rng.choice([1, -1, 255, 32767, rng.randint(-32768, 32767)])}}
+                p = pl.plan(op)
+                if not p.skip and not p.ctx.errs:
+                    p.commit()
+                    cfg['plets'].append(op)
+        self.cfg = cfg
+        if rng.random() < 0.25 and not progrun:
             cfg['field'] = rng.choice([8, 32, 128])
             m.reclen = cfg['field']
             m.fbuf = bytearray(m.reclen)
             m.field_ok = True
-        est_prog = sum(len(expr_txt(f['body'], f)) + 30 for f in self.fns) + sum(
+        scratch = Model(dict(cfg, max_memory=65534))
+        scratch.base = cfg['base'] or 0
+        build_prelude(scratch, cfg)
+        m.prog = scratch.prog
+        est_prog = (700 if progrun else 0) + sum(len(expr_txt(f['body'], f)) + 30 for f in self.fns) + sum(
             len(expr_txt(o['e'])) + len(ref_txt(o['t'])) + 10 for o in cfg['plets']) + 20
         floor = 4720 + est_prog
         if rng.random() < 0.35:
@@ -2547,12 +2821,28 @@ class Gen(object):
                     ('clear', 3), ('fill', 12), ('optbase', 4), ('probe', 1), ('mid', 1), ('lset', 1), ('field', 1),
                     ('line', 2), ('merase', 4), ('mdim', 5), ('input', 1.5), ('restart', 0.3), ('faillet', 6)],
         }[prop]
+        if progrun:
+            weights = weights + [('prog', {'C10': 6, 'C11': 6, 'C12': 3}[prop])]
         kinds = [k for k, _ in weights]
         wts = [x for _, x in weights]
         pl = Planner(m)
         ops = []
         for _ in range(n_ops):
             kind = rng.choices(kinds, wts)[0]
+            if kind == 'prog':
+                for op2 in self.gen_prog(m):
+                    ops.append(op2)
+                    if op2['op'] == 'prun':
+                        if model_run(m)[0]:
+                            m.fns_ok = any(e['k'] == 'def' for e in m.prog.values())
+                        continue
+                    skip, _, errs, newprog, _ = plan_prog(m, op2, cfg)
+                    if not skip and not errs:
+                        m.prog = newprog
+                        if op2['op'] != 'prenum':
+                            m.reset()
+                            m.fns_ok = False
+                continue
             if kind in ('input', 'faillet', 'restart'):
                 for op2 in (self.gen_input(m) if kind == 'input' else self.gen_faillet(m) if kind == 'faillet'
                             else self.gen_restart(m)):
@@ -2665,6 +2955,43 @@ class Gen(object):
             out.append({'op': 'squeeze', 't': rng.choice(self.sstr), 'to': to})
         out.append({'op': 'input', 'line': line, 'v': items})
         return out
+
+    def gen_prog(self, m):
+        """A statement that changes the stored program, mostly followed by RUN to get the program's variables back."""
+        rng = self.rng
+        nums = sorted(m.prog)
+        free = [n for n in nums if m.prog[n]['k'] not in PROTECTED]
+
+        def text():
+            n = rng.choice([0, 3, 10, 30, 80, 200])
+            return ''.join(rng.choice('abcdefghijklmnopqrstuvwxyz XYZ0123456789') for _ in range(n)).strip()
+
+        def newnum():
+            r = rng.random()
+            if nums and r < 0.3 and nums[0] > 1:
+                return rng.randint(1, nums[0] - 1)
+            if len(nums) > 1 and r < 0.7:
+                i = rng.randrange(len(nums) - 1)
+                if nums[i + 1] - nums[i] > 1:
+                    return rng.randint(nums[i] + 1, nums[i + 1] - 1)
+            return (nums[-1] if nums else 0) + rng.randint(1, 500)
+
+        r = rng.random()
+        if r < 0.38:
+            lines = {}
+            for _ in range(rng.choice([1, 2, 2, 3, 4])):
+                n = rng.choice(free) if (free and rng.random() < 0.2) else newnum()
+                lines[n] = text()
+            op = {'op': 'pmerge', 'lines': [[n, lines[n]] for n in sorted(lines)]}
+        elif r < 0.6:
+            op = {'op': 'pline', 'n': rng.choice(free) if (free and rng.random() < 0.5) else newnum(), 'text': text()}
+        elif r < 0.72:
+            op = {'op': 'pdelete', 'n': rng.choice(free) if (free and rng.random() < 0.8) else newnum()}
+        elif r < 0.82:
+            op = {'op': 'prenum', 'new': rng.choice([10, 100, 1000, 3]), 'inc': rng.choice([10, 5, 1, 20])}
+        else:
+            return [{'op': 'prun'}]
+        return [op, {'op': 'prun'}] if rng.random() < 0.6 else [op]
 
     def gen_restart(self, m):
         """A restart, then functions whose first argument is a temporary and whose later argument allocates."""
